@@ -11,14 +11,18 @@ from tie.framework import TieBroken, g_bool, g_list, g_N, g_opt, g_str, g_Z, run
 
 PROP = "C20"
 IMPORTS = ("From JV Require Import Lib.Base Lib.C20Text Lib.C20Regex Model.C20Base Model.C20Restricted "
-           "Model.C20Registered Corr.C20Judge.\nLocal Open Scope Z_scope.")
+           "Model.C20Registered Model.C20NumRegistry Model.C20RegisterType Corr.C20Judge.\nLocal Open Scope Z_scope.")
 RULE = ("restricted numbers: every restriction list of 1 or 2 comparisons over {>,>=,<,<=,==,!=} x 2 reference values x "
         "{int,float} x {and,or} (thorough: plus seeded 3-comparison lists), each with candidates around the bounds, "
         "integral/non-integral floats, bools, numeric strings (signs, blanks, underscores, exponents, inf/nan), junk, "
         "None and lists, float-based types with references at 2^53 / 2^60 / 10^22 and INTEGER inputs that float() must round "
         "(2^53+1, 2^53+3, 2^60+129, 10^23, the OverflowError boundary), called directly as T(v) and through parse_args / parse_object; every generated type is created from a "
         "caller-owned list object that is changed after the creation (append / clear / replace / drop+insert, optionally "
-        "followed by the creation of the next type from the same list) or from a bare pair; the six predefined types by name; "
+        "followed by the creation of the next type from the same list), from a bare pair, or under its automatic name "
+        "(name=None); 3-comparison lists in every tier; registry histories of number types: two calls of "
+        "restricted_number_type with references of their own (permuted lists, 1 vs 1.0 spellings of a reference, another "
+        "reference / operator / join / base type, a repeated comparison, references that are not of the base type, an unknown "
+        "symbol; same name or another) x values around the references; the six predefined types by name; "
         "restricted strings: the predefined and generated regexes x strings incl. prefixes and trailing newlines, the regex "
         "handed over as text or as a compiled Pattern, with flags IGNORECASE / DOTALL / VERBOSE / MULTILINE (and (?i)) and "
         "strings whose match depends on the flag; registry histories: one pattern text registered twice with equal or "
@@ -27,7 +31,12 @@ RULE = ("restricted numbers: every restriction list of 1 or 2 comparisons over {
         "registered types: ranges/timedeltas/Decimals/secrets/complex/UUID/bytes/bytearray/pathlib values incl. extremes, "
         "serialised and read back through dump->parse_string, argv, a config file and a JSON dump, handed to "
         "parse_object as already typed values, and parsed repeatedly (same and fresh parser) with the value handed out "
-        "modified in place between the parses when it is mutable, plus the deserializers on mutated texts. A case is non-trivial unless it is a plain in-range int; distinct = distinct "
+        "modified in place between the parses when it is mutable, dumped under an Any-typed argument and dumped / read back "
+        "inside Optional[T], List[T] and Dict[str, T] (string, json, config file, parse_object), plus the deserializers on "
+        "mutated texts; secrets: equality / hash / len of the value read back against an equal and a different secret of the "
+        "same length, dumps under Any and inside containers; register_type histories: for every built-in registered type and "
+        "a class nobody registered, one call with the same pair / the defaults / another serializer / another deserializer / "
+        "fail_already_registered=False / a uniqueness key (table restored afterwards). A case is non-trivial unless it is a plain in-range int; distinct = distinct "
         "(case, observation)")
 TRUSTED = [
     "Coq 8.16.1 kernel + vm_compute",
@@ -49,6 +58,10 @@ ASSUMPTIONS = [
     "2^1024 - 2^970 on: Lib/C20Text.float_of_int, shared by model and spec as a Python primitive and tied per case); numeric "
     "STRINGS and float literals beyond the fixed-point domain (|x| >= 10^9 with a fraction, or more than 15 digits) are not "
     "modelled and not generated; floats beyond it are integer-valued doubles written with all their digits",
+    "number-type registry: Python's sorted() on (symbol, reference) pairs is modelled as an insertion sort under the tuple "
+    "order (strings by code point, then references numerically); only 'the result is a permutation, equal up to == for equal "
+    "inputs' is used; base_type / join outside {int, float} / {'and', 'or'} are typed away (ValueError in the code, not generated); "
+    "the names already in jsonargparse.typing's globals() are not modelled (histories use names of their own)",
     "Decimal: float() and repr() are external functions; only the result of float() being a binary double is used "
     "(plus, for the pre-fix guard only, exactness on binary doubles of at most 15 digits); decimals are finite",
 ]
@@ -500,7 +513,7 @@ def num_types(rng, tier):
             types.append((base, "and", [(">", pvf("2.0"))]))
         types.append((base, "or", []))
         types.append((base, "and", []))
-        n3 = 0 if tier == "quick" else 1500
+        n3 = 40 if tier == "quick" else 1500   # the quantifier says 1-3 comparisons: some in every tier
         refs3 = refs + ([pvi(-3)] if base == "int" else [pvf("-0.25"), pvf("inf")])
         for _ in range(n3):
             types.append((base, rng.choice(["and", "or"]), [(rng.choice(OPS), rng.choice(refs3)) for _ in range(3)]))
@@ -584,7 +597,9 @@ def gen_big(rng, tier):
     for base, join, restr in big_types(rng, tier):
         vals = [pvi(s * z) for z in BIG_INTS for s in (1, -1)] + [pvf(f) for f in BIG_FLOATS] + [pvf("-" + f) for f in BIG_FLOATS[:5]]
         if tier == "quick":
-            vals = rng.sample(vals, 24)
+            # always: the first int float() rounds, its negative, and an int float() cannot hold at all
+            keep = [pvi(P53 + 1), pvi(-(P53 + 1)), pvi(10 ** 400)]
+            vals = keep + rng.sample([v for v in vals if v not in keep], 21)
         for v in vals:
             if base == "int" and "f" in v and v["f"] not in ("1.5", "inf"):
                 pass
@@ -851,8 +866,65 @@ def gen_rstr(rng, tier):
     return cases
 
 
+# registry histories of restricted NUMBER types: two calls of restricted_number_type; every history has references of
+# its own (R = 1000 + 10 * index), so the registry of the process holds neither key before
+def numhist_shapes(R):
+    i, f = (lambda n: pvi(n)), (lambda n: pvf("%d.0" % n))
+    a, b = [">=", i(R)], ["<", i(R + 3)]
+
+    def t(base, join, restr):
+        return {"base": base, "join": join, "restr": restr}
+
+    return [
+        ("permuted", t("int", "and", [a, b]), t("int", "and", [b, a])),
+        ("permuted-or", t("float", "or", [["<", i(R)], [">", i(R + 3)]]), t("float", "or", [[">", i(R + 3)], ["<", i(R)]])),
+        ("spelling-float", t("float", "and", [[">", i(R)]]), t("float", "and", [[">", f(R)]])),
+        ("spelling-int", t("int", "and", [["<=", f(R)]]), t("int", "and", [["<=", i(R)]])),
+        ("permuted-spelling-3", t("float", "or", [[">", i(R + 3)], ["==", i(R + 1)], ["<", i(R)]]),
+         t("float", "or", [["==", f(R + 1)], ["<", f(R)], [">", i(R + 3)]])),
+        ("same-op-refs-swapped", t("int", "or", [["==", i(R + 3)], ["==", i(R)]]), t("int", "or", [["==", i(R)], ["==", i(R + 3)]])),
+        ("negative-refs-swapped", t("int", "and", [[">", i(-R)], [">", i(-R - 3)]]), t("int", "and", [[">", i(-R - 3)], [">", i(-R)]])),
+        ("identical", t("float", "and", [["<", pvf("%d.5" % R)]]), t("float", "and", [["<", pvf("%d.5" % R)]])),
+        ("other-ref", t("int", "and", [[">", i(R)]]), t("int", "and", [[">", i(R + 1)]])),
+        ("other-op", t("int", "and", [[">", i(R)]]), t("int", "and", [[">=", i(R)]])),
+        ("other-join", t("float", "and", [a, b]), t("float", "or", [a, b])),
+        ("other-base", t("int", "and", [[">", i(R)]]), t("float", "and", [[">", i(R)]])),
+        ("repeated-comparison", t("int", "and", [a]), t("int", "and", [a, a])),
+        ("one-more", t("int", "and", [a]), t("int", "and", [a, b])),
+        ("bad-ref", t("int", "and", [[">", i(R)]]), t("int", "and", [[">", pvf("%d.5" % R)]])),
+        ("bad-ref-float", t("float", "and", [[">", i(R)]]), t("float", "and", [[">", i(2 ** 53 + 1)]])),
+        ("bad-symbol", t("int", "and", [[">", i(R)]]), t("int", "and", [["=>", i(R)]])),
+        ("first-refused", t("int", "and", [[">", pvf("%d.5" % R)]]), t("int", "and", [[">", i(R)]])),
+    ]
+
+
+def gen_numhist(rng, tier):
+    cases, h = [], 0
+    for same in (True, False):
+        for k in range(len(numhist_shapes(0))):
+            h += 1
+            R = 1000 + 10 * h
+            label, t1, t2 = numhist_shapes(R)[k]
+            vals = [pvi(R - 1), pvi(R), pvi(R + 1), pvi(R + 2), pvi(R + 3), pvi(R + 4), pvf("%d.5" % R), pvf("%d.0" % (R + 3)),
+                    pvs(str(R + 1)), {"b": True}, pvi(-R), pvi(-R - 2), pvi(-R - 4), pvi(0)]
+            for v in vals:
+                cases.append({"kind": "numhist", "hist": h, "shape": label, "same_name": same, "t1": t1, "t2": t2, "value": v})
+    return cases
+
+
+REG_TYPES = ["complex", "decimal.Decimal", "uuid.UUID", "pathlib.Path", "pathlib.PosixPath", "datetime.timedelta",
+             "builtins.bytes", "builtins.bytearray", "range", "SecretStr", "user"]
+REG_ACTIONS = ["same", "defaults", "other_ser", "other_des", "force", "force_same", "key"]
+
+
+def gen_reghist(rng, tier):
+    return [{"kind": "reghist", "type": t, "action": a} for t in REG_TYPES for a in REG_ACTIONS]
+
+
 def generate(rng, tier):
     cases = []
+    cases += gen_numhist(rng, tier)
+    cases += gen_reghist(rng, tier)
     cases += gen_num(rng, tier)
     cases += gen_numparse(rng, tier)
     cases += gen_big(rng, tier)
@@ -978,6 +1050,19 @@ def term(case, obs):
                                                           translate_regex(case["regex"], case["flags2"]),
                                                           g_str(case["flags1"]), g_str(case["flags2"]),
                                                           g_bool(case["same_name"]), g_pv(case["value"]), g_bool(obs["created"]), acc)
+        if k == "numhist":
+            acc = g_opt(g_num(obs["acc"])) if obs["acc"] is not None else "None"
+            return "(CNumHist %s %s %s %s %s %s)" % (g_rtype(case["t1"]), g_rtype(case["t2"]), g_bool(case["same_name"]),
+                                                    g_pv(case["value"]), g_bool(obs["created"]), acc)
+        if k == "reghist":
+            def pair(sn, dn):
+                g_ser = "SerStr" if sn is None else SER_NAMES.get(sn, "(SerOther %s)" % g_str(sn))
+                g_des = "DesClass" if dn is None else DES_NAMES.get(dn, "(DesOther %s)" % g_str(dn))
+                return "(%s, %s)" % (g_ser, g_des)
+
+            after = "None" if obs["after"] is None else g_opt(pair(*obs["after"]))
+            return "(CRegHist %s %s %s %s %s %s)" % (g_str(case["type"]), pair(obs["ser"], obs["des"]), g_bool(obs["fail"]),
+                                                    g_bool(obs["key"]), g_bool(obs["refused"]), after)
         if k == "range":
             back = g_opt(g_range(obs["back"])) if obs["back"] is not None else "None"
             return "(CRange %s %s %s %s)" % (g_range((case["start"], case["stop"], case["step"])), g_str(obs["ser"]), back,
@@ -1011,7 +1096,7 @@ def term(case, obs):
 def nontrivial_key(case, obs):
     if case["kind"] == "num" and "i" in case["value"] and abs(int(case["value"]["i"])) < 3 and len(case["restr"]) < 2:
         return None
-    core = {k: v for k, v in obs.items() if k in ("acc", "back", "ser", "loaded", "dbl", "all_equal", "leaked", "chan_ok", "created")}
+    core = {k: v for k, v in obs.items() if k in ("acc", "back", "ser", "loaded", "dbl", "all_equal", "leaked", "chan_ok", "created", "refused", "after")}
     return json.dumps([case, core], sort_keys=True)
 
 
@@ -1019,6 +1104,11 @@ def category(case, obs):
     k = case["kind"]
     if "harness_error" in obs or "crash" in obs:
         return k + "/crash"
+    if k == "numhist":
+        return "numhist/%s/%s/%s" % (case["shape"], "same-name" if case["same_name"] else "other-name",
+                                     "refused" if not obs.get("created") else "accepted" if obs.get("acc") is not None else "rejected")
+    if k == "reghist":
+        return "reghist/%s/%s" % (case["action"], "refused" if obs.get("refused") else "let-through")
     if k == "rstrhist":
         return "rstrhist/%s/%s" % ("same-name" if case["same_name"] else "other-name",
                                    "refused" if not obs.get("created") else "accepted" if obs.get("acc") is not None else "rejected")
@@ -1047,7 +1137,7 @@ def shrink(case):
         for i in range(len(case["restr"])):
             r2 = case["restr"][:i] + case["restr"][i + 1:]
             yield dict(case, restr=r2, after=after_for(case["base"], case["join"], [(s_, r) for s_, r in r2]))
-    if k in ("num", "numparse", "rstr", "rstrhist", "rangedes", "tddes") and "s" in case["value"]:
+    if k in ("num", "numparse", "rstr", "rstrhist", "rangedes", "tddes", "numhist") and "s" in case["value"]:
         s = case["value"]["s"]
         for i in range(len(s)):
             yield dict(case, value={"s": s[:i] + s[i + 1:]})
@@ -1088,7 +1178,12 @@ META = {
                   "when it is a numeral, an int to float as the nearest double — rounding beyond 2^53 included) and b satisfies the "
                   "comparisons joined by and/or; a second cast changes nothing; the "
                   "parser path (loaded value, retry with the original text) agrees; C20_operator_table: the operator table "
-                  "regenerated from jsonargparse/typing.py denotes the six comparisons. Restricted strings: "
+                  "regenerated from jsonargparse/typing.py denotes the six comparisons; C20_number_type_creation / "
+                  "C20_number_type_histories (NEW: restricted_number_type's argument checks, its register key "
+                  "(tuple(sorted(restrictions)), base_type, join) compared as Python compares tuples — references numerically — "
+                  "and extend_base_type / add_type's registry with its name rules: along ANY history of creations a type handed "
+                  "back, new or found under an equal key, validates exactly the comparisons stated in that call, by "
+                  "permutation-invariance of and/or over the sorted key), C20_number_type_creation_valid. Restricted strings: "
                   "C20_restricted_string_exact (derivative matcher proved sound and complete for the denotational language; "
                   "re.match = prefix match, `$` allows one final newline, under MULTILINE any newline; IGNORECASE / DOTALL / "
                   "VERBOSE are resolved by the translator), C20_string_type_creation (the registry of extend_base_type: inside "
@@ -1096,7 +1191,10 @@ META = {
                   "C20_string_type_creation_flags_in_key (the key of the repaired tree, /repo e33ad1a, read from the source: no "
                   "guard is left, along any history of creations), C20_string_type_key_ignores_flags_refuted (regression "
                   "witness: the text-only key). Registered types: C20_registry (the module-level "
-                  "register_type calls, regenerated from the source, bind each type to the modelled serializer/deserializer pair); "
+                  "register_type calls, regenerated from the source, bind each type to the modelled serializer/deserializer pair), "
+                  "C20_registry_stable / C20_register_type_repeat (NEW: register_type as a transition of "
+                  "registered_type_handlers — RegisteredType.__eq__ on class, serializer, base deserializer; along any history "
+                  "of default-flag calls a registered type keeps its pair, a call let through repeated it); "
                   "C20_range_roundtrip for ALL ranges over Z (empty ones included) and C20_range_regexes (the three patterns of "
                   "the source accept exactly what the model's scanner accepts, for every string); C20_timedelta_roundtrip for ALL "
                   "representable timedeltas (negative, sub-second), C20_timedelta_registered_roundtrip (through "
@@ -1109,15 +1207,17 @@ META = {
                   "C20_decimal_guarded_roundtrip (either registration inside the judge's guard). Only exercised by the "
                   "correspondence: complex, UUID, bytes, bytearray and pathlib round trips (Python builtins), the yaml/json "
                   "quoting of the serialised texts on the four channels (dump->parse_string, argv, config file, json) plus the "
-                  "pass-through of an already typed value, that a later parse of the same text is not affected by in-place changes "
+                  "pass-through of an already typed value, the same values under Any and inside Optional / List / Dict, that a later parse of the same text is not affected by in-place changes "
                   "of the value an earlier parse handed out, that no dump/save/str/repr shows a secret, that a type keeps the "
-                  "comparisons stated at its creation when the caller later changes the list object it passed.",
+                  "comparisons stated at its creation when the caller later changes the list object it passed, the automatic "
+                  "name of a type created with name=None (not modelled: only that the type validates), equality / hash / len of "
+                  "SecretStr.",
     "level_note": "Trusted: Coq kernel/VM; faithfulness of the hand-written models outside the generated cases; the AST translators "
                   "(operator table, regexes, registry; fail closed); Python's int()/float() text grammars (modelled, tied per "
                   "case) and double arithmetic (floats are fixed-point multiples of 10^-6 in the model); float()/repr() of a "
                   "Decimal are external functions (only 'the result is a binary double' is used; for the pre-fix guard their "
                   "exactness on 15-digit binary doubles is a stated hypothesis, float_faithful). No axioms.",
     "technique": "Rocq proofs (reflection of the boolean model against a Prop spec, list/regex induction, Brzozowski derivatives, "
-                 "lia with div/mod) + operator table, regexes and registry translated from the source on every run + "
+                 "lia with div/mod, registry invariants preserved along histories, Permutation of the insertion-sorted key) + operator table, regexes and registry translated from the source on every run + "
                  "correspondence evaluated inside Coq (model agreement, guard class, spec agreement per case)",
 }
